@@ -65,6 +65,11 @@ def run(ctx):
     local = sorted(n for n in reach if n in cg.fns)
     ctx.units["functions_reachable_from_evaluator"] = len(local)
 
+    # ---------------- R5 evaluating an expression leaves the enclosing bindings alone
+    from rules import c03 as c03_
+    c03_.fresh_child_scopes(ctx, "C02.R5", core, cg,
+                            doc="a do-block and a function body bind their names in a scope created for them (Environment::extend / extend_with in the same arm), never in the enclosing one: evaluating the same expression twice, or once under a new name, sees the same bindings")
+
     # ---------------- R1 effects inventory
     ctx.rule("C02.R1", "every impure primitive (time, io, env, fs, process, thread, unseeded rng, mutable statics) reachable from the evaluator is one of the allowed items, pinned to its function and match arm", floor=8)
     bic_name = CORE + "functions::BuiltInFunction::call"
@@ -352,6 +357,36 @@ def heap_write_once(ctx, rid, core, crates, cg, doc=None):
                 if any(H.kind(x) == "Field" and H.path_local(x["e"]) == "self" for x in H.walk(l)):
                     bad.append("assignment to self.*")
         ctx.inst(rid, "%s#push-only" % name.replace(CORE, ""), not bad, "operations on the cell vector other than push/get: %s" % bad, H.loc(hf["body"]))
+    # the one in-place write gives a function its name: that happens where a name is bound (an assignment), nowhere else -
+    # a function literal stored in a record field or passed as an argument stays anonymous, as its let-abstracted twin would be
+    from lib import scope as scope_, sig as S_
+    n_nm = 0
+    for fname in sorted(core.hir):
+        if not fname.startswith(CORE + "expressions::") or "::tests::" in fname or core.hir[fname].get("body") is None:
+            continue
+        try:
+            fb = core.hir_fn(fname)
+        except CheckerError:
+            continue
+        for n, e, g in scope_.sites(fb["body"], lambda n: H.kind(n) == "MethodCall" and n.get("def") == CORE + "heap::Heap::get_mut", S_.Env()):
+            lab = None
+            for gg in g:
+                pat = None
+                if gg[0] == "arm":
+                    pat = gg[1]["pat"]
+                elif gg[0] == "if" and gg[2] is True:
+                    for c in H.walk(gg[1]):
+                        if H.kind(c) == "LetExpr" and any("ast::Expr::" in v for v in H.pat_variants(c["pat"])):
+                            pat = c["pat"]
+                if pat is not None:
+                    vs = sorted(H.last(v) for v in H.pat_variants(pat) if "ast::Expr::" in v)
+                    if vs:
+                        lab = vs
+            if lab is None and any(fname in cg.out.get(c_, ()) for c_ in cg.fns if c_ != fname and c_.startswith(CORE + "expressions::")):
+                continue  # a helper of the evaluator: judged where it is called (its body is looked through there)
+            n_nm += 1
+            ctx.inst(rid, "%s#naming-site[%s]" % (fname.replace(CORE, ""), "|".join(lab) if lab else "?"), None if lab is None else lab == ["Assignment"],
+                     "a heap cell is written in place while evaluating %s (only an assignment gives a function its name)" % (lab or "an unidentified construct"), H.loc(n))
     rm = M.callers_of(crates, lambda d: d.endswith("::reify_mut"))
     rm = {k: v for k, v in rm.items() if not k.endswith("::reify_mut")}
     ctx.inst(rid, "reify_mut#no-callers", not rm, "callers of reify_mut: %s" % sorted(rm), None)
